@@ -81,6 +81,10 @@ func (r *pfbReader) Read(b []byte) (n int, err error) {
 			}
 			k, err = io.ReadFull(r.r, b[:k])
 			r.len -= int64(k)
+			if err == io.EOF && r.len > 0 {
+				// the input ends inside the segment
+				err = io.ErrUnexpectedEOF
+			}
 			if err != nil {
 				return n, err
 			}
